@@ -22,7 +22,7 @@ import ast
 import dim_rules
 from common import AnalysisError, Finding, norm
 from flow import BaseClient, function_exits
-from repo import call_name, kw
+from repo import call_name, kw, walk_with_callees
 
 EXPLANATION = ("abstract interpretation of every registered field function with the excitation tagged: degree of B and H in the excitation "
                "must be exactly 1 (necessary) and the linearity class is computed (Lin proved / Affine violation / NonLin undecided). "
@@ -129,30 +129,61 @@ def level2_superposition(repo, res):
             if not (isinstance(cond, ast.If) and isinstance(cond.test, ast.Call) and call_name(cond.test) == "isinstance"
                     and ast.unparse(cond.test.args[0]) == src and "Collection" in ast.unparse(cond.test.args[1])):
                 continue
-            L = flat = None
+            # symbolic bounds: every local assigned in the branch is a linear form over the row index and `len(<flattening call>)`
+            env, flats = {}, {}
+
+            def lin(e):
+                """-> {symbol: coeff} (symbol '' = constant) or None"""
+                if isinstance(e, ast.Constant) and isinstance(e.value, int) and not isinstance(e.value, bool):
+                    return {"": e.value}
+                if isinstance(e, ast.Name):
+                    if e.id in env:
+                        return env[e.id]
+                    return {e.id: 1}
+                if isinstance(e, ast.Call) and call_name(e) == "len" and e.args and isinstance(e.args[0], ast.Call):
+                    k = "len:" + norm(e.args[0])
+                    flats[k] = e.args[0]
+                    return {k: 1}
+                if isinstance(e, ast.BinOp) and isinstance(e.op, (ast.Add, ast.Sub)):
+                    a, b = lin(e.left), lin(e.right)
+                    if a is None or b is None:
+                        return None
+                    sg = 1 if isinstance(e.op, ast.Add) else -1
+                    out = dict(a)
+                    for k, v in b.items():
+                        out[k] = out.get(k, 0) + sg * v
+                    return {k: v for k, v in out.items() if v or k == ""} or {"": 0}
+                return None
+
+            def clean(d):
+                return None if d is None else {k: v for k, v in d.items() if v}
+
             store = delete = None
             for s in cond.body:
-                if isinstance(s, ast.Assign) and isinstance(s.value, ast.Call) and call_name(s.value) == "len" and isinstance(s.targets[0], ast.Name) \
-                        and s.value.args and isinstance(s.value.args[0], ast.Call):
-                    L, flat = s.targets[0].id, s.value.args[0]
+                if isinstance(s, ast.Assign) and len(s.targets) == 1 and isinstance(s.targets[0], ast.Name) and lin(s.value) is not None \
+                        and not (isinstance(s.value, ast.Call) and call_name(s.value) in ("delete", "np.delete")):
+                    env[s.targets[0].id] = lin(s.value)
                 if isinstance(s, ast.Assign) and isinstance(s.targets[0], ast.Subscript) and isinstance(s.value, ast.Call) and call_name(s.value) in ("sum", "np.sum"):
                     store = s
                 if isinstance(s, ast.Assign) and isinstance(s.value, ast.Call) and call_name(s.value) in ("delete", "np.delete"):
                     delete = s
-            if not (L and store is not None and delete is not None):
+            if not (store is not None and delete is not None):
                 continue
             forms += 1
             probs = []
             B = ast.unparse(store.targets[0].value)
-            if ast.unparse(store.targets[0].slice) != i:
+            if clean(lin(store.targets[0].slice)) != {i: 1}:
                 probs.append((store, f"the collection's sum is written to row `{ast.unparse(store.targets[0].slice)}`, not to the collection's own row `{i}`"))
             arg = store.value.args[0] if store.value.args else None
             ax = kw(store.value, "axis", store.value.args[1] if len(store.value.args) > 1 else None)
-            hi_ok = (f"{i} + {L}", f"{L} + {i}")
+            hi = clean(lin(arg.slice.upper)) if isinstance(arg, ast.Subscript) and isinstance(arg.slice, ast.Slice) and arg.slice.upper is not None else None
+            lens = [k for k in (hi or {}) if k.startswith("len:")]
+            L = lens[0] if len(lens) == 1 else None
+            flat = flats.get(L)
             if not (isinstance(arg, ast.Subscript) and ast.unparse(arg.value) == B and isinstance(arg.slice, ast.Slice)
-                    and arg.slice.lower is not None and ast.unparse(arg.slice.lower) == i
-                    and arg.slice.upper is not None and ast.unparse(arg.slice.upper) in hi_ok and arg.slice.step is None):
-                probs.append((store, f"the summed rows must be exactly `{B}[{i} : {i} + {L}]` (the collection's {L} flattened sources start at its own row)"))
+                    and arg.slice.lower is not None and clean(lin(arg.slice.lower)) == {i: 1}
+                    and L is not None and hi == {i: 1, L: 1} and arg.slice.step is None):
+                probs.append((store, f"the summed rows must be exactly `{B}[{i} : {i} + <number of flattened sources>]` (the collection's flattened sources start at its own row)"))
             if not (isinstance(ax, ast.Constant) and ax.value == 0):
                 probs.append((store, "the collection rows are summed along the source axis (axis=0)"))
             dv = delete.value
@@ -163,15 +194,22 @@ def level2_superposition(repo, res):
             elif isinstance(dsl, ast.Call) and call_name(dsl) == "slice" and len(dsl.args) == 2:
                 dsl = ast.Slice(lower=dsl.args[0], upper=dsl.args[1], step=None)
             if not (ast.unparse(delete.targets[0]) == B and dv.args and ast.unparse(dv.args[0]) == B and isinstance(dsl, ast.Slice)
-                    and dsl.lower is not None and ast.unparse(dsl.lower) in (f"{i} + 1", f"1 + {i}")
-                    and dsl.upper is not None and ast.unparse(dsl.upper) in hi_ok and dsl.step is None
+                    and dsl.lower is not None and clean(lin(dsl.lower)) == {i: 1, "": 1}
+                    and dsl.upper is not None and L is not None and clean(lin(dsl.upper)) == {i: 1, L: 1} and dsl.step is None
                     and isinstance(dax, ast.Constant) and dax.value == 0):
-                probs.append((delete, f"the removed rows must be exactly `{i} + 1 : {i} + {L}` of axis 0 (all rows of the collection but its own)"))
+                probs.append((delete, f"the removed rows must be exactly `{i} + 1 : {i} + <number of flattened sources>` of axis 0 (all rows of the collection but its own)"))
+            if flat is None:
+                res.ob(f"SUM-SLICE:{norm(store)}", not probs, {"rule": "SUM-SLICE", "loop": norm(loop.iter), "store": norm(store), "delete": norm(delete)})
+                for node, msg in probs:
+                    res.add(Finding("SUM-SLICE", WREL, "getBH_level2", node, msg, node.lineno))
+                continue
             if delete.lineno < store.lineno:
                 probs.append((delete, "rows are removed before they are summed"))
             # the length must come from the flattener that built the rows (format_src_inputs)
             fsi = repo.func("magpylib._src.utility", "format_src_inputs")
-            built = [c2 for c2 in ast.walk(fsi) if isinstance(c2, ast.Call) and call_name(c2) == call_name(flat)]
+            # the flattening may be delegated to a helper of format_src_inputs
+            fsi_nodes = list(walk_with_callees(repo, repo.mod("magpylib._src.utility"), fsi, 2, skip=("format_obj_input", "check_format_input_obj")))
+            built = [c2 for c2 in fsi_nodes if isinstance(c2, ast.Call) and call_name(c2) == call_name(flat)]
             same = [c2 for c2 in built if [ast.unparse(k.value) for k in c2.keywords] == [ast.unparse(k.value) for k in flat.keywords]]
             if not (ast.unparse(flat.args[0]) == src if flat.args else False) or not same:
                 probs.append((flat, f"the number of rows of a collection ({norm(flat)}) is not computed by the flattener call that built the rows in format_src_inputs"))
@@ -181,7 +219,8 @@ def level2_superposition(repo, res):
     # SUM-LEN: wherever a Collection's number of rows is computed (any form of the reduction), it is the length of the same flattening
     #          that built the rows - `len(col)` counts direct children only (a nested collection is one child, many rows)
     fsi = repo.func("magpylib._src.utility", "format_src_inputs")
-    flatteners = {(call_name(c2), tuple(ast.unparse(k.value) for k in c2.keywords)) for iff in ast.walk(fsi) if isinstance(iff, ast.If)
+    fsi_nodes = list(walk_with_callees(repo, repo.mod("magpylib._src.utility"), fsi, 2, skip=("format_obj_input", "check_format_input_obj")))
+    flatteners = {(call_name(c2), tuple(ast.unparse(k.value) for k in c2.keywords)) for iff in fsi_nodes if isinstance(iff, ast.If)
                   and "Collection" in ast.unparse(iff.test) for c2 in ast.walk(ast.Module(body=iff.body, type_ignores=[]))
                   if isinstance(c2, ast.Call) and c2.args and isinstance(c2.args[0], ast.Name) and (c2.keywords or len(c2.args) > 1)}
     res.require(flatteners, "anchor vanished: the flattening call for Collection entries in format_src_inputs")
